@@ -591,6 +591,11 @@ def check(ctx):
     from . import c01
     c01.rule_orthogonal_indexer(ctx, rid='R8')
     c01.rule_issorted_provenance(ctx, rid='R9')
+    # label slices on a Dataset are applied per variable by Dataset.take: positions keyed by each variable's own dimension names (shared with C14)
+    from . import c14
+    from ..report import Renamed
+    ctx.rule('R10', 'Dataset.take hands each variable its indices by dimension name (shared with C14)', 1)
+    c14.rule_take(Renamed(ctx, {'*': 'R10'}))
     ctx.not_decided += ['is_monotonic_equal on arrays with repeated values (value level)', 'float rounding',
                         "NumPy's searchsorted semantics (trusted: first i with a[i] >= v is side='left', "
                         "first i with a[i] > v is side='right')"]
